@@ -138,15 +138,21 @@ def cli_case(ctx, case):
             argv[0] = os.path.join(src_dir, 'absent.asm')
     # the reference result through the API (same options), before any injection
     exp = None
+    api_refuses = False
     if not (crash and crash[0] in ('natural',)):
         labels = {}
         incs = (inc_dirs if '-i' in argv else []) + ([os.path.join(os.path.dirname(asm.__file__), 'definitions')] if case['prog'] == 'defs' else [])
-        exp = (bytes(asm.assemble(main, compress=case['compress'], include_dirs=incs, labels=labels)), labels)
+        try:
+            exp = (bytes(asm.assemble(main, compress=case['compress'], include_dirs=incs, labels=labels)), labels)
+        except Exception:
+            # this tree refuses the program through the API: the command line then has to fail cleanly as well (C17 does not say which programs are valid)
+            api_refuses = True
+            ctx.count('api_refuses')
     if case['hex'] in ('END', 'END+1', 'END+2') and exp:
         # resolve the symbolic boundary offsets now that the program length is known
         case = dict(case, hex_symbol=case['hex'], hex=hex((1 << 32) - len(exp[0]) + {'END': 0, 'END+1': 1, 'END+2': 2}[case['hex']]))
         argv[argv.index('--hex-offset') + 1] = case['hex']
-    must_fail = bool(crash) or case['hex'] in HEX_INVALID or case.get('hex_symbol') in HEX_INVALID
+    must_fail = bool(crash) or case['hex'] in HEX_INVALID or case.get('hex_symbol') in HEX_INVALID or api_refuses
     if case['hex'] == '0xffffff00' and exp and len(exp[0]) > 0x100:
         must_fail = True
     orig = fired = None
@@ -162,7 +168,7 @@ def cli_case(ctx, case):
         if orig is not None:
             setattr(asm, crash[1], orig)
     if fired is not None and not fired:
-        must_fail = False          # the pass is not part of this run (e.g. the compression pass without -c): nothing was injected
+        must_fail = api_refuses    # the pass is not part of this run (e.g. the compression pass without -c): nothing was injected
         ctx.count('injection_not_reached')
     now = {k: (open(p, 'rb').read() if os.path.exists(p) else None) for k, p in files.items()}
     tag = '%s:%s' % (crash[0] if crash else 'none', (crash[1] if crash else '-') if not (crash and crash[0] == 'pass') else '%s-%s' % (crash[2], crash[3]))
